@@ -20,6 +20,12 @@ Theorem C17_round_nearest : forall y : float,
 Proof. exact round_nearest. Qed.
 Print Assumptions C17_round_nearest.
 
+(* the specification predicate determines the integer *)
+Theorem C17_nearest_away_unique : forall (y : R) (n1 n2 : Z),
+  nearest_away y n1 -> nearest_away y n2 -> n1 = n2.
+Proof. exact nearest_away_unique. Qed.
+Print Assumptions C17_nearest_away_unique.
+
 Theorem C17_round_odd : forall y : float,
   is_finite y = true -> (Rabs (B2R y) < IZR (2 ^ 62))%R -> round (Bopp y) = (- round y)%Z.
 Proof. exact round_odd. Qed.
@@ -58,6 +64,14 @@ Theorem C17_roundtrip_21M : forall a : Z,
   (Z.abs a <= c_MaxSatoshi)%Z -> new_amount (to_bch a) = Ok a.
 Proof. exact roundtrip_21M. Qed.
 Print Assumptions C17_roundtrip_21M.
+
+(* MulF64: nearest integer, ties away, to the single product fl(float64(a) * f), any int64 a *)
+Theorem C17_mul_f64_nearest : forall (a : Z) (f : float),
+  (Z.abs a <= 2 ^ 63)%Z -> is_finite f = true ->
+  (Rabs (RN (RN (IZR a) * B2R f)) < IZR (2 ^ 62))%R ->
+  nearest_away (RN (RN (IZR a) * B2R f)) (mul_f64 a f).
+Proof. exact mul_f64_nearest. Qed.
+Print Assumptions C17_mul_f64_nearest.
 
 (* ToUnit for Satoshi .. 1e14 BCH: the correctly rounded quotient a / 10^(u+8) (one division,
    both operands exact) *)
